@@ -35,7 +35,9 @@
     (the call has no effect and returns an error) or the process crashes before
     call k (everything after it is dropped -- a crash truncates the history
     between two API calls).  Each critical section of a group is one atomic
-    piece of the monad: that is justified by Proofs/GroupMutex.v.
+    piece of the monad: that is justified by Proofs/GroupMutex.v and
+    Proofs/Sections.v (the lock protocol with bodies that run one API call at a
+    time), and checked on the real code by the race stream of Run/C17.v.
 
     Oracles (theorems quantify over all of them): fault positions, the device
     plugin (annotates a new reservation pod with an index, or never does), Go's
